@@ -13,3 +13,4 @@ open Gossamer.C23
 #print axioms C23_spec_abandoned_discarded
 #print axioms C23_scheduled_applies_on_own_fork
 #print axioms C23_forced_applies_at_effective_block
+#print axioms C23_forced_delay0_applies_at_own_block
